@@ -317,7 +317,10 @@ func (x *Exec) call(st *State, c *ast.CallExpr) []Value {
 			}
 			n := x.callArgOrd[ci]
 			x.callArgOrd[ci] = n + 1
-			x.obligeNamed(st, fmt.Sprintf("callarg[%d.%d]", ci, n), "callarg", env.evalBool(ab.Expr), c.Pos(), ab.Text)
+			g := env.evalBool(ab.Expr)
+			x.obligeNamed(st, fmt.Sprintf("callarg[%d.%d]", ci, n), "callarg", g, c.Pos(), ab.Text)
+			// proved (or reported) here, known from here on: a later clause may build on an earlier one
+			st.assume(g)
 		}
 	}
 	if cal.ct.Inline {
